@@ -564,11 +564,11 @@ class MPO(MPSGeometry):
                 # i.e. project grids[0][:, :] -> grids[0][IdL[0], :]
                 # and         grids[-1][:, :] -> grids[-1][:,IdR[-1], :]
                 first_grid = grids[0]
-                last_grid = grids[-1]
                 if len(first_grid) > 1:
                     grids[0] = [first_grid[IdL[0]]]
                     IdL[0] = 0
                     IdR[0] = None
+                last_grid = grids[-1]  # (for a single site: the grid projected just above)
                 if len(last_grid[0]) > 1:
                     grids[-1] = [[row[IdR[-1]]] for row in last_grid]
                     IdR[-1] = 0
